@@ -310,6 +310,7 @@ pub fn observe(c: &Case) -> Result<Obs, String> {
             continue;
           }
           let target = crate::vtime::now() + 5 * MS;
+          let taps_before_tick = log.marks(TAP, "tap").len();
           log.mark(0, "tick", 0);
           // due-stepping: fire what falls due within the period, run tasks
           loop {
@@ -322,9 +323,12 @@ pub fn observe(c: &Case) -> Result<Obs, String> {
             }
           }
           crate::vtime::set_now(target);
-          // ticks delivered during this period go to the subscribers active now
-          let seen: Vec<i64> = log.marks(TAP, "tap").iter().map(|(_, v)| *v).collect();
-          let _ = seen;
+          // a connected publish() keeps its source subscribed whether or not anybody listens
+          // (its connection handle is kept alive and never unsubscribed here): one period, one tick
+          let taps_now = log.marks(TAP, "tap").len();
+          if c.mode == Mode::Publish && connected && taps_now == taps_before_tick {
+            problems.push(("source_retired_while_connected".into(), format!("a full period passed on the connected publish() and the interval source did not tick (ticks so far: {})", taps_now)));
+          }
         }
       }
       w.quiesce(Policy::Fifo, &mut rng);
